@@ -52,8 +52,12 @@ def solve_campaign(ctx, n_systems, gen_kw=None, case_kw=None, filt=None, variant
             continue
         for _ in range(variants):
             g = gen.Gen(rng, **(gen_kw or {}))
+            first = "a"
+            if rng.random() < 0.15:
+                st = drv_solve.rename_behaviour(st)
+                first = drv_solve.TRICKY["a"]
             try:
-                s = drv_solve.build_system(st, g, rng)
+                s = drv_solve.build_system(st, g, rng, first=first)
             except drv_solve.BuildFailure as bf:
                 cases.append(bf.case(len(cases)))
                 continue
@@ -318,7 +322,12 @@ def _run(ctx, prop, n_q, n_t, rule, gen_kw=None, case_kw=None, filt=None, varian
 
 
 def std_case_kw(rng, s):
-    return dict(ta=rng.choice([25.0, -40.0, 0.0, 85.0]), energy=rng.random() < 0.5, rail_rep=True)
+    kw = dict(ta=rng.choice([25.0, -40.0, 0.0, 85.0]), energy=rng.random() < 0.5, rail_rep=True)
+    if rng.random() < 0.2:
+        kw["tags"] = {"Run": 7, "who": "x"}      # extra columns in front of the table; everything else must be as without
+    if rng.random() < 0.15:
+        kw["quiet"] = False
+    return kw
 
 
 def run_c01(ctx):
